@@ -5,7 +5,11 @@
    NewCSSMiddleware(next, classes...)).  [out] is everything written, tagged with the context;
    [proj c out] is the document written in context c and [log] its sequence of definitions
    (function in a <script>, rule in a <style>, once body), uses (call, class name, once render) and
-   registrations (the rendering context passes through a further CSS middleware: op OMiddleware). *)
+   registrations (the rendering context passes through a further CSS middleware: op OMiddleware).
+   A once handle gets its content from the block of the call (OOnce), from the component it was built with
+   (OOnceC, self-closing call) or has none (OOnceSelf); OCall is a call of a component with or without a
+   { children... } slot, with or without a block; the registry carries templ's children slot
+   (contextValue.children, field kids) with the set / clear / restore protocol of the runtime and of generated code. *)
 From Coq.Strings Require Import Byte String.
 From Coq Require Import List NArith.
 Import ListNotations.
@@ -45,6 +49,18 @@ Theorem C12_contexts_independent :
     run (init_reg (cfgs c)) (proj c h) = (st' c, proj c out).
 Proof. exact multi_independent. Qed.
 Print Assumptions C12_contexts_independent.
+
+(* Between any two uses the children slot of the context is empty, and no component called without a block - a
+   template with { children... }, a once handle without component - ever finds children in the context that an
+   earlier use left there (chunk KLeak: it would render them a further time, in particular once content outside
+   its handle's guard).  With C12_emit_at_most_once: each once content is written at most once in the whole
+   document, through whichever path. *)
+Theorem C12_children_never_leak :
+  forall (cfgs : nat -> cfg) (h : list (nat * op)) st' out (c : nat),
+    run_multi (fun d => init_reg (cfgs d)) h = (st', out) ->
+    kids (st' c) = None /\ forall b, ~ In (KLeak b) (proj c out).
+Proof. exact multi_children_never_leak. Qed.
+Print Assumptions C12_children_never_leak.
 
 (* A class registered with the middleware never has its rule written into the page ... *)
 Theorem C12_middleware_never_inlined :
@@ -129,6 +145,29 @@ Example C12_ex_documents :
   /\ render (proj 1%nat out) =
     bs "<style type=""text/css"">.k_1{color:red;}</style><script nonce=""n1"">function f1(){}</script><div class=""k_1 k_2"" onclick=""f1()""></div>[h7]"
   /\ stylesheet (ex_cfgs 1%nat) = bs ".k_2{color:blue;}".
+Proof. vm_compute. repeat split. Qed.
+
+(* a handle built with a component (page dependencies), asked for twice through self-closing calls, each followed by
+   a layout component with a children slot called without a block, then the layout called with a block: the once
+   content is written once, the slots of the calls without block stay empty *)
+Example C12_ex_once_component_then_slot :
+  let deps := [OText (bs "[h3]"); ORender s1] in
+  let card := fun blk block => OCall true [OText (bs "<p>")] blk block [OText (bs "</p>")] in
+  let h := [OOnceC 3 deps; card false []; OOnceC 3 deps; card false []; OOnceSelf 4; card true [OText (bs "body"); OOnceC 3 deps]] in
+  let '(r, cs) := run (init_reg (mkCfg [] None)) h in
+  render cs = bs "[h3]<script>function f1(){}</script><script>f1()</script><p></p><p></p><p>body</p>"
+  /\ kids r = None
+  /\ defs (log cs) = [Handle 3; Script (bs "f1"); Handle 4].
+Proof. vm_compute. repeat split. Qed.
+(* the hazard the theorem excludes: were a use to leave a component in the slot (say a once render that installs its
+   component with WithChildren and does not take it out again), the next component called without a block would
+   render it *)
+Example C12_ex_leak_is_observable :
+  let deps := [OText (bs "[h3]")] in
+  let r := set_kids (init_reg (mkCfg [] None)) (Some deps) in
+  snd (step r (OCall true [] false [] [])) = [KLeak deps] /\
+  snd (step r (OOnceSelf 4)) = [KOnceBegin 4; KLeak deps; KOnceEnd 4] /\
+  snd (step r (OCall true [] true [OText (bs "body")] [])) = [KText (bs "body")].
 Proof. vm_compute. repeat split. Qed.
 
 (* the two forms whose name and rule disagreed before commit 0a03483 *)
